@@ -123,6 +123,13 @@ def _entries():
     def add(fn, opt, rand, det, slow=False):
         E.append({"fn": fn, "opt": opt, "rand": rand, "det": det, "slow": slow})
 
+    def addc(fn, opt, make, fit, det, clone=None, slow=False):
+        """class-type entry: make(rs) constructs the estimator, fit(m) fits it on the fixed data and returns the
+        result; the plain call is fit(make(rs)).  The same object can be fitted repeatedly (FitObj) and, where the
+        class offers get_params(), rebuilt from it (CloneFit)."""
+        add(fn, opt, lambda rs: fit(make(rs)), det, slow)
+        E[-1]["obj"] = {"make": make, "fit": fit, "clone": clone}
+
     # deterministic companions ("functions without random choices")
     det_cpt = lambda: tl.cp_to_tensor((I.cp[0].copy(), c(I.cp[1])))
     det_kr = lambda: tenalg.khatri_rao(c(I.mats))
@@ -171,24 +178,24 @@ def _entries():
     add("parafac", "init=svd,svd=randomized_svd", lambda rs: D.parafac(c(I.T), 2, n_iter_max=3, init="svd", svd="randomized_svd", tol=0, random_state=rs), det_parafac)
     add("parafac", "init=svd,svd=randomized_svd,mask", lambda rs: D.parafac(c(I.T), 2, n_iter_max=3, init="svd", svd="randomized_svd", tol=0, mask=c(I.mask), svd_mask_repeats=2, random_state=rs), det_parafac)
     add("parafac", "init=svd,svd=randomized_svd,rank>dim", lambda rs: D.parafac(c(I.T), 4, n_iter_max=3, init="svd", svd="randomized_svd", tol=0, random_state=rs), det_parafac)
-    add("CP.fit_transform", "init=random", lambda rs: D.CP(2, n_iter_max=3, init="random", tol=0, random_state=rs).fit_transform(c(I.T)), det_parafac)
+    addc("CP.fit_transform", "init=random", lambda rs: D.CP(2, n_iter_max=3, init="random", tol=0, random_state=rs), lambda m: m.fit_transform(c(I.T)), det_parafac)
     add("non_negative_parafac", "init=random", lambda rs: D.non_negative_parafac(c(I.P), 2, n_iter_max=3, init="random", tol=0, random_state=rs), det_nnparafac)
     add("non_negative_parafac", "init=svd,rank>dim", lambda rs: D.non_negative_parafac(c(I.P), 4, n_iter_max=3, init="svd", tol=0, random_state=rs), det_nnparafac)
     add("non_negative_parafac", "init=svd,svd=randomized_svd", lambda rs: D.non_negative_parafac(c(I.P), 2, n_iter_max=3, init="svd", svd="randomized_svd", tol=0, random_state=rs), det_nnparafac)
     add("non_negative_parafac", "init=svd,svd=randomized_svd,mask", lambda rs: D.non_negative_parafac(c(I.P), 2, n_iter_max=3, init="svd", svd="randomized_svd", tol=0, mask=c(I.mask), random_state=rs), det_nnparafac)
-    add("CP_NN.fit_transform", "init=random", lambda rs: D.CP_NN(2, n_iter_max=3, init="random", tol=0, random_state=rs).fit_transform(c(I.P)), det_nnparafac)
+    addc("CP_NN.fit_transform", "init=random", lambda rs: D.CP_NN(2, n_iter_max=3, init="random", tol=0, random_state=rs), lambda m: m.fit_transform(c(I.P)), det_nnparafac)
     add("non_negative_parafac_hals", "init=random", lambda rs: D.non_negative_parafac_hals(c(I.P), 2, n_iter_max=1, init="random", tol=0, random_state=rs), det_nnhals, slow=True)
     add("non_negative_parafac_hals", "init=svd,svd=randomized_svd", lambda rs: D.non_negative_parafac_hals(c(I.P), 2, n_iter_max=1, init="svd", svd="randomized_svd", tol=0, random_state=rs), det_nnhals, slow=True)
-    add("CP_NN_HALS.fit_transform", "init=random", lambda rs: D.CP_NN_HALS(2, n_iter_max=1, init="random", tol=0, random_state=rs).fit_transform(c(I.P)), det_nnhals, slow=True)
+    addc("CP_NN_HALS.fit_transform", "init=random", lambda rs: D.CP_NN_HALS(2, n_iter_max=1, init="random", tol=0, random_state=rs), lambda m: m.fit_transform(c(I.P)), det_nnhals, slow=True)
     add("constrained_parafac", "init=random", lambda rs: D.constrained_parafac(c(I.T), 2, n_iter_max=2, n_iter_max_inner=2, init="random", non_negative=True, random_state=rs), det_ccp)
     add("constrained_parafac", "init=svd,rank>dim", lambda rs: D.constrained_parafac(c(I.T), 4, n_iter_max=2, n_iter_max_inner=2, init="svd", non_negative=True, random_state=rs), det_ccp)
     add("constrained_parafac", "init=svd,svd=randomized_svd", lambda rs: D.constrained_parafac(c(I.T), 2, n_iter_max=2, n_iter_max_inner=2, init="svd", svd="randomized_svd", non_negative=True, random_state=rs), det_ccp)
     add("constrained_parafac", "init=svd,svd=randomized_svd,rank>dim", lambda rs: D.constrained_parafac(c(I.T), 4, n_iter_max=2, n_iter_max_inner=2, init="svd", svd="randomized_svd", non_negative=True, random_state=rs), det_ccp)
-    add("ConstrainedCP.fit_transform", "init=random", lambda rs: D.ConstrainedCP(2, n_iter_max=2, n_iter_max_inner=2, init="random", l2_reg=0.1, random_state=rs).fit_transform(c(I.T)), det_ccp)
+    addc("ConstrainedCP.fit_transform", "init=random", lambda rs: D.ConstrainedCP(2, n_iter_max=2, n_iter_max_inner=2, init="random", l2_reg=0.1, random_state=rs), lambda m: m.fit_transform(c(I.T)), det_ccp)
     add("randomised_parafac", "init=random", lambda rs: D.randomised_parafac(c(I.T), 2, 8, n_iter_max=3, init="random", tol=0, random_state=rs), det_parafac)
     add("randomised_parafac", "init=svd", lambda rs: D.randomised_parafac(c(I.T), 2, 8, n_iter_max=3, init="svd", tol=0, random_state=rs), det_parafac)
     add("randomised_parafac", "init=svd,svd=randomized_svd,n_iter_max=6", lambda rs: D.randomised_parafac(c(I.T), 2, 8, n_iter_max=6, init="svd", svd="randomized_svd", tol=0, max_stagnation=0, random_state=rs), det_parafac)
-    add("RandomizedCP.fit_transform", "init=random", lambda rs: D.RandomizedCP(2, 8, n_iter_max=3, init="random", tol=0, verbose=0, random_state=rs).fit_transform(c(I.T)), det_parafac)
+    addc("RandomizedCP.fit_transform", "init=random", lambda rs: D.RandomizedCP(2, 8, n_iter_max=3, init="random", tol=0, verbose=0, random_state=rs), lambda m: m.fit_transform(c(I.T)), det_parafac)
     add("sample_khatri_rao", "", lambda rs: D.sample_khatri_rao(c(I.mats), 6, random_state=rs), det_kr)
     add("sample_khatri_rao", "skip_matrix,return_sampled_rows", lambda rs: D.sample_khatri_rao(c(I.mats), 6, skip_matrix=1, return_sampled_rows=True, random_state=rs), det_kr)
 
@@ -197,8 +204,8 @@ def _entries():
     add("tucker", "init=random,mask,errors", lambda rs: D.tucker(c(I.T), [2, 2, 2], n_iter_max=3, init="random", tol=0, mask=c(I.mask), return_errors=True, random_state=rs), det_tucker)
     add("tucker", "init=svd,svd=randomized_svd", lambda rs: D.tucker(c(I.T), [2, 2, 2], n_iter_max=3, init="svd", svd="randomized_svd", tol=0, random_state=rs), det_tucker)
     add("tucker", "init=svd,svd=randomized_svd,mask", lambda rs: D.tucker(c(I.T), [2, 2, 2], n_iter_max=3, init="svd", svd="randomized_svd", tol=0, mask=c(I.mask), random_state=rs), det_tucker)
-    add("Tucker.fit_transform", "init=svd,svd=randomized_svd", lambda rs: D.Tucker([2, 2, 2], n_iter_max=3, init="svd", svd="randomized_svd", tol=0, random_state=rs).fit_transform(c(I.T)), det_tucker)
-    add("Tucker.fit_transform", "init=random", lambda rs: D.Tucker([2, 2, 2], n_iter_max=3, init="random", tol=0, random_state=rs).fit_transform(c(I.T)), det_tucker)
+    addc("Tucker.fit_transform", "init=svd,svd=randomized_svd", lambda rs: D.Tucker([2, 2, 2], n_iter_max=3, init="svd", svd="randomized_svd", tol=0, random_state=rs), lambda m: m.fit_transform(c(I.T)), det_tucker)
+    addc("Tucker.fit_transform", "init=random", lambda rs: D.Tucker([2, 2, 2], n_iter_max=3, init="random", tol=0, random_state=rs), lambda m: m.fit_transform(c(I.T)), det_tucker)
     add("partial_tucker", "init=random", lambda rs: D.partial_tucker(c(I.T), [2, 2], modes=[0, 2], n_iter_max=3, init="random", tol=0, random_state=rs), det_ptucker)
     add("partial_tucker", "init=svd,svd=randomized_svd", lambda rs: D.partial_tucker(c(I.T), [2, 2], modes=[0, 2], n_iter_max=3, init="svd", svd="randomized_svd", tol=0, random_state=rs), det_ptucker)
     add("partial_tucker", "init=svd,svd=randomized_svd,mask", lambda rs: D.partial_tucker(c(I.T), [2, 2], modes=[0, 2], n_iter_max=3, init="svd", svd="randomized_svd", tol=0, mask=c(I.mask), svd_mask_repeats=2, random_state=rs), det_ptucker)
@@ -207,8 +214,8 @@ def _entries():
     add("non_negative_tucker_hals", "init=svd,svd=randomized_svd", lambda rs: D.non_negative_tucker_hals(c(I.P), [2, 2, 2], n_iter_max=1, init="svd", svd="randomized_svd", tol=0, random_state=rs), det_nntuckerh, slow=True)
 
     from tensorly.decomposition._tucker import Tucker_NN, Tucker_NN_HALS
-    add("Tucker_NN.fit_transform", "init=random", lambda rs: Tucker_NN([2, 2, 2], n_iter_max=3, init="random", tol=0, random_state=rs).fit_transform(c(I.P)), det_nntucker)
-    add("Tucker_NN_HALS.fit_transform", "init=random", lambda rs: Tucker_NN_HALS([2, 2, 2], n_iter_max=1, init="random", tol=0, random_state=rs).fit_transform(c(I.P)), det_nntuckerh, slow=True)
+    addc("Tucker_NN.fit_transform", "init=random", lambda rs: Tucker_NN([2, 2, 2], n_iter_max=3, init="random", tol=0, random_state=rs), lambda m: m.fit_transform(c(I.P)), det_nntucker)
+    addc("Tucker_NN_HALS.fit_transform", "init=random", lambda rs: Tucker_NN_HALS([2, 2, 2], n_iter_max=1, init="random", tol=0, random_state=rs), lambda m: m.fit_transform(c(I.P)), det_nntuckerh, slow=True)
 
     # ---- PARAFAC2
     add("parafac2", "init=random", lambda rs: D.parafac2(c(I.slices), 2, n_iter_max=3, init="random", tol=0, linesearch=False, random_state=rs), det_parafac2)
@@ -223,16 +230,16 @@ def _entries():
             lambda rs, init=init: D.parafac2(c(I.slices), 2, n_iter_max=9, init=init, svd="randomized_svd", tol=1e-30, linesearch=True, return_errors=True, random_state=rs), det_parafac2, slow=True)
         add("parafac2", "init=%s,svd=randomized_svd,linesearch,nn_modes,n_iter_max=9" % init,
             lambda rs, init=init: D.parafac2(c(I.pslices), 2, n_iter_max=9, n_iter_parafac=1, init=init, svd="randomized_svd", tol=1e-30, nn_modes=[0, 2], linesearch=True, random_state=rs), det_parafac2, slow=True)
-    add("Parafac2.fit_transform", "init=svd,svd=randomized_svd,linesearch,n_iter_max=9", lambda rs: D.Parafac2(2, n_iter_max=9, init="svd", svd="randomized_svd", tol=1e-30, linesearch=True, return_errors=True, random_state=rs).fit_transform(c(I.slices)), det_parafac2, slow=True)
-    add("Parafac2.fit_transform", "init=random", lambda rs: D.Parafac2(2, n_iter_max=3, init="random", tol=0, linesearch=False, return_errors=True, random_state=rs).fit_transform(c(I.slices)), det_parafac2)
+    addc("Parafac2.fit_transform", "init=svd,svd=randomized_svd,linesearch,n_iter_max=9", lambda rs: D.Parafac2(2, n_iter_max=9, init="svd", svd="randomized_svd", tol=1e-30, linesearch=True, return_errors=True, random_state=rs), lambda m: m.fit_transform(c(I.slices)), det_parafac2, slow=True)
+    addc("Parafac2.fit_transform", "init=random", lambda rs: D.Parafac2(2, n_iter_max=3, init="random", tol=0, linesearch=False, return_errors=True, random_state=rs), lambda m: m.fit_transform(c(I.slices)), det_parafac2)
 
     # ---- tensor ring / tensor train
     add("tensor_ring_als", "", lambda rs: D.tensor_ring_als(c(I.T), [2, 2, 2, 2], n_iter_max=3, tol=0, random_state=rs), det_tr)
     add("tensor_ring_als", "ls_solve=normal_eq", lambda rs: D.tensor_ring_als(c(I.T), [2, 2, 2, 2], ls_solve="normal_eq", n_iter_max=3, tol=0, random_state=rs), det_tr)
     add("tensor_ring_als_sampled", "", lambda rs: D.tensor_ring_als_sampled(c(I.T), [2, 2, 2, 2], 10, n_iter_max=3, tol=0, random_state=rs), det_tr)
     add("tensor_ring_als_sampled", "uniform_sampling,randomized_error", lambda rs: D.tensor_ring_als_sampled(c(I.T), [2, 2, 2, 2], 10, n_iter_max=3, tol=1e-12, uniform_sampling=True, randomized_error=True, random_state=rs), det_tr)
-    add("TensorRingALS.fit_transform", "", lambda rs: D.TensorRingALS([2, 2, 2, 2], n_iter_max=3, tol=0, random_state=rs).fit_transform(c(I.T)), det_tr)
-    add("TensorRingALSSampled.fit_transform", "", lambda rs: D.TensorRingALSSampled([2, 2, 2, 2], 10, n_iter_max=3, tol=0, random_state=rs).fit_transform(c(I.T)), det_tr)
+    addc("TensorRingALS.fit_transform", "", lambda rs: D.TensorRingALS([2, 2, 2, 2], n_iter_max=3, tol=0, random_state=rs), lambda m: m.fit_transform(c(I.T)), det_tr)
+    addc("TensorRingALSSampled.fit_transform", "", lambda rs: D.TensorRingALSSampled([2, 2, 2, 2], 10, n_iter_max=3, tol=0, random_state=rs), lambda m: m.fit_transform(c(I.T)), det_tr)
     add("tensor_train_cross", "", lambda rs: tensor_train_cross(c(I.P), [1, 2, 2, 1], tol=1e-4, n_iter_max=4, random_state=rs), det_tt)
 
     # many requested column indices out of few possible ones: the collision loop (re-draws) is certainly entered
@@ -248,24 +255,23 @@ def _entries():
     add("svd_interface", "method=randomized_svd,mask,non_negative", lambda rs: svd_interface(np.abs(I.M), method="randomized_svd", n_eigenvecs=3, mask=c(I.mask2), non_negative=True, random_state=rs), det_symeig)
 
     # ---- regression
-    def cpreg(rs):
-        m = CPRegressor(2, tol=0, n_iter_max=4, random_state=rs)
+    by_params = lambda m: type(m)(**m.get_params())
+
+    def fit_cpreg(m):
         m.fit(c(I.X), c(I.y))
         return [m.weight_tensor_, m.cp_weight_, m.predict(c(I.X))]
 
-    def tuckreg(rs):
-        m = TuckerRegressor([2, 2], tol=0, n_iter_max=4, random_state=rs)
+    def fit_tuckreg(m):
         m.fit(c(I.X), c(I.y))
         return [m.weight_tensor_, m.tucker_weight_, m.predict(c(I.X))]
 
-    def plsr(rs):
-        m = CP_PLSR(2, n_iter_max=5, random_state=rs)
+    def fit_plsr(m):
         m.fit(c(I.X), c(I.Y2))
         return [m.X_factors, m.Y_factors, m.coef_, m.predict(c(I.X))]
 
-    add("CPRegressor", "", cpreg, det_parafac)
-    add("TuckerRegressor", "", tuckreg, det_tucker)
-    add("CP_PLSR", "", plsr, det_svdi)
+    addc("CPRegressor", "", lambda rs: CPRegressor(2, tol=0, n_iter_max=4, random_state=rs), fit_cpreg, det_parafac, clone=by_params)
+    addc("TuckerRegressor", "", lambda rs: TuckerRegressor([2, 2], tol=0, n_iter_max=4, random_state=rs), fit_tuckreg, det_tucker, clone=by_params)
+    addc("CP_PLSR", "", lambda rs: CP_PLSR(2, n_iter_max=5, random_state=rs), fit_plsr, det_svdi, clone=by_params)
     for k, e in enumerate(E):
         e["key"] = e["fn"] + ("[" + e["opt"] + "]" if e["opt"] else "")
     return E
@@ -295,7 +301,7 @@ PERTURB = [
 
 
 def run_trace(case):
-    """case = {id, tr, entry, ops:[{op,e,s,g}], seeds:{"1":real,"2":real}, genseed:{"g1":1,"g2":1},
+    """case = {id, tr, entry, ops:[{op,e,s,g,o}], seeds:{"1":real,"2":real}, genseed:{"g1":1,"g2":1}, objseed:{"o1":1},
                start: real seed of the global stream at trace start, flavour: index into PERTURB}
     Returns the list of events (Reset first)."""
     ent = registry()[case["entry"]]
@@ -309,6 +315,9 @@ def run_trace(case):
 
     np.random.seed(int(case["start"]))
     gens = {g: np.random.RandomState(real[int(ms)]) for g, ms in sorted(case["genseed"].items())}
+    # estimator objects constructed ONCE per trace with an integer seed and then fitted repeatedly (class entries only)
+    objseed = {o: int(ms) for o, ms in case.get("objseed", {}).items()}
+    objs = {o: ent["obj"]["make"](real[ms]) for o, ms in sorted(objseed.items())} if "obj" in ent else {}
     perturb = PERTURB[int(case["flavour"]) % len(PERTURB)]
 
     def obs():
@@ -316,13 +325,13 @@ def run_trace(case):
                 "gens": {g: intern("S" + state_digest(r.get_state())) for g, r in gens.items()}}
 
     events = []
-    ev = {"id": "%s/0" % case["id"], "tr": case["tr"], "ev": "Reset", "entry": case["entry"], "e": "none", "s": 0, "g": "none",
-          "out": "ok", "res": 0, "genseed": {g: int(ms) for g, ms in case["genseed"].items()}}
+    ev = {"id": "%s/0" % case["id"], "tr": case["tr"], "ev": "Reset", "entry": case["entry"], "e": "none", "s": 0, "g": "none", "o": "none",
+          "out": "ok", "res": 0, "genseed": {g: int(ms) for g, ms in case["genseed"].items()}, "objseed": objseed}
     ev.update(obs())
     events.append(ev)
     for l, op in enumerate(case["ops"], 1):
         ev = {"id": "%s/%d" % (case["id"], l), "tr": case["tr"], "ev": op["op"], "entry": case["entry"],
-              "e": op.get("e", "none"), "s": int(op.get("s", 0)), "g": op.get("g", "none"), "out": "ok", "res": 0}
+              "e": op.get("e", "none"), "s": int(op.get("s", 0)), "g": op.get("g", "none"), "o": op.get("o", "none"), "out": "ok", "res": 0}
         if op["op"] == "Perturb":
             perturb()
         elif op["op"] == "Reseed":
@@ -336,6 +345,12 @@ def run_trace(case):
                 call = lambda: ent["rand"](real[int(op["s"])])
             elif op["op"] == "CallGen":
                 call = lambda: ent["rand"](gens[op["g"]])
+            elif op["op"] == "FitObj":          # the SAME object again
+                ev["s"] = objseed[op["o"]]
+                call = lambda: ent["obj"]["fit"](objs[op["o"]])
+            elif op["op"] == "CloneFit":        # a new estimator built from get_params() of the (possibly fitted) object
+                ev["s"] = objseed[op["o"]]
+                call = lambda: ent["obj"]["fit"](ent["obj"]["clone"](objs[op["o"]]))
             else:
                 raise ValueError(op["op"])
             try:
